@@ -4,9 +4,9 @@ import random
 import common
 
 TITLE = 'A session with four conforming clients always runs to completion'
-LEAN_TARGETS = ['BridgeVerif.Props.C09', 'BridgeVerif.Translated.ThreadsSeatA', 'BridgeVerif.Translated.ThreadsSeatB', 'BridgeVerif.Translated.ThreadsSeatC', 'BridgeVerif.Translated.ThreadsSeatD']
-AUDIT_PROPS = ['C09', 'Translated.ThreadsSeatA', 'Translated.ThreadsSeatB', 'Translated.ThreadsSeatC', 'Translated.ThreadsSeatD']
-REQUIRED = ['Translated.ThreadsSeatD.translated_seat_thread_is_session_program', 'Translated.ThreadsSeatD.session_boards_checks', 
+LEAN_TARGETS = ['BridgeVerif.Props.C09', 'BridgeVerif.Translated.ThreadsSeatA', 'BridgeVerif.Translated.ThreadsSeatB', 'BridgeVerif.Translated.ThreadsSeatC', 'BridgeVerif.Translated.ThreadsSeatD', 'BridgeVerif.Translated.ThreadsSeatE']
+AUDIT_PROPS = ['C09', 'Translated.ThreadsSeatA', 'Translated.ThreadsSeatB', 'Translated.ThreadsSeatC', 'Translated.ThreadsSeatD', 'Translated.ThreadsSeatE']
+REQUIRED = ['Translated.ThreadsSeatE.translated_seat_thread_is_session_program_protocol', 'Translated.ThreadsSeatE.connect_request_parses_nodigit', 'Translated.ThreadsSeatD.translated_seat_thread_is_session_program', 'Translated.ThreadsSeatD.session_boards_checks', 
             'Translated.ThreadsSeatC.seat_boards_translated', 'Translated.ThreadsSeatC.seat_run_translated', 'Translated.ThreadsSeatC.seat_run_refused_translated', 'Translated.ThreadsSeatC.seat_run_not_ready_translated', 
             'Translated.ThreadsSeatB.seat_playing_translated', 'Translated.ThreadsSeatB.seat_trick_translated', 
             'session_disciplined', 'canonical_run_terminates', 'no_lost_wakeup', 'session_always_completes',
